@@ -1,1 +1,192 @@
-(* Model/Newton.v -- stub, to be filled in *)
+(* Model/Newton.v -- src/newton.rs (the six solve / solve_jacobian methods) and the two
+   finite-difference Jacobians of src/matrix/functions.rs, statement by statement.
+   Definitions only.
+
+   The user function is a parameter [f : X -> res X] (a Rust closure may panic).  Every
+   method is instrumented: besides the Rust result it returns the list of points at which
+   the closures were called, in call order.
+
+   The six methods differ only in the types involved.  [NOps] collects what differs:
+     NA    element type of the unknown   (f64                | Cmplx)
+     NR    type of tol / delta           (f64                | f64)
+     emb   delta as an element           (d                  | Cmplx::new(d, 0.0))
+     mag   the inherent  .abs()          (f64::abs           | Complex::<f64>::abs = sqrt(abs_sqr))
+     divr  element / real                (f64 / f64          | Complex<f64> / f64 = (re/r, im/r))
+   so that ONE definition per Rust method body is run at f64 (NReal AF), at Cmplx
+   (NCplx SAF), at Qc (NReal AQ) and is proved for an arbitrary [NOps].
+
+   f64::abs (inherent, clears the sign bit) and the model's [abs] (traits.rs shape:
+   if x < 0 { -x } else { x }) differ only on -0.0 and on the sign of NaN; every use below
+   feeds the value to [<=] / [<] only, where the difference is invisible. *)
+From Coq Require Import List Arith Lia Bool.
+From OV Require Import Base.Panic Base.Arith Model.Complex Model.Vector Model.Matrix Model.Solve.
+Import ListNotations.
+Local Open Scope arith_scope.
+
+Record NOps := {
+  NA : Arith;
+  NR : Arith;
+  emb : NR -> NA;
+  mag : NA -> NR;
+  divr : NA -> NR -> res NA;
+}.
+
+Definition NReal (A : Arith) : NOps :=
+  {| NA := A; NR := A; emb := fun d => d; mag := abs; divr := div |}.
+
+Definition NCplx (S : SArith) : NOps :=
+  {| NA := CArith S; NR := S; emb := fun d => mkC d zero;
+     mag := fun z => sqrt (abs_sqr z); divr := cdiv_r |}.
+
+(* Result<T, T> of the solve methods *)
+Inductive nres (X : Type) : Type := NOk (x : X) | NErr (x : X).
+Arguments NOk {X} x. Arguments NErr {X} x.
+
+(* Newton<T> { tol, delta, max_iter, guess } *)
+Record ncfg (R X : Type) := mkCfg { tol : R; delta : R; max_iter : nat; guess : X }.
+Arguments mkCfg {R X}. Arguments tol {R X}. Arguments delta {R X}.
+Arguments max_iter {R X}. Arguments guess {R X}.
+
+(* which closure was called (the supplied-Jacobian variants take two) *)
+Inductive call (X : Type) : Type := CF (x : X) | CJ (x : X).
+Arguments CF {X} x. Arguments CJ {X} x.
+
+(* ------------------------------------------------------------------------------------
+   The loop shared by all six methods:
+
+     let mut current = self.guess;
+     for _ in 0..self.max_iter {
+         <body: computes the new current and the stopping test; calls the closures>
+         if <test> { return Ok( current ) }
+     }
+     Err( current )
+
+   [step cur] = Ok (new current, test, calls made by this pass) or the panic of the body. *)
+Section Loop.
+Context {X E : Type}.
+Context (step : X -> res (X * bool * list E)).
+
+Fixpoint nloop (n : nat) (cur : X) (evs : list E) : res (nres X * list E) :=
+  match n with
+  | 0 => Ok (NErr cur, evs)
+  | S n' =>
+      let* r := step cur in
+      let '(cur', stop, e) := r in
+      if stop then Ok (NOk cur', evs ++ e) else nloop n' cur' (evs ++ e)
+  end.
+
+(* the k-th iterate, stopping tests ignored (right-hand side of the theorems) *)
+Fixpoint niter (k : nat) (cur : X) : res X :=
+  match k with
+  | 0 => Ok cur
+  | S k' => let* r := step cur in niter k' (fst (fst r))
+  end.
+End Loop.
+
+Section Newton.
+Context (O : NOps).
+Notation A := (NA O).
+Notation R := (NR O).
+
+Definition two : R := add one one.                                     (* the literal 2.0 *)
+
+(* ---- Newton<f64>::solve / Newton<Cmplx>::solve  (newton.rs:58-92) ----
+     let deriv = ( func( current + delta ) - func( current - delta ) ) / ( 2.0 * delta );
+     let dx = func(current) / deriv;
+     current -= dx;
+     if dx.abs() <= self.tol { return Ok( current ); }                                  *)
+Definition scalar_step (tl dl : R) (f : A -> res A) (cur : A) : res (A * bool * list A) :=
+  let pp := add cur (emb O dl) in
+  let* fp := f pp in
+  let pm := sub cur (emb O dl) in
+  let* fm := f pm in
+  let* deriv := divr O (sub fp fm) (mul two dl) in
+  let* fc := f cur in
+  let* dx := div fc deriv in
+  Ok (sub cur dx, leb (mag O dx) tl, [pp; pm; cur]).
+
+Definition newton_scalar (c : ncfg R A) (f : A -> res A) : res (nres A * list A) :=
+  nloop (scalar_step (tol c) (delta c) f) (max_iter c) (guess c) [].
+
+(* ---- Vector::<f64>::norm_inf / Vector::<Cmplx>::norm_inf  (vec_f64.rs:51, vec_cmplx.rs:34) ----
+     let mut result = self.vec[0].abs();
+     for i in 1..self.size() { if result < self.vec[i].abs() { result = self.vec[i].abs(); } }   *)
+Definition norm_inf (v : list A) : res R :=
+  let* x0 := rd v 0 in
+  for_ 1 (length v) (fun i r => let* x := rd v i in
+                                if ltb r (mag O x) then Ok (mag O x) else Ok r) (mag O x0).
+
+(* ---- Mat64::jacobian / Matrix::<Cmplx>::jacobian_cmplx  (matrix/functions.rs:64-102) ----
+     let n = point.size();  let f = func( point.clone() );  let m = f.size();
+     let mut state = point.clone();  let mut jac = Matrix::new( m, n, 0 );
+     for i in 0..n {
+         state[i] += delta;
+         let f_new = func( state.clone() );
+         state[i] -= delta;
+         jac.set_col( i, ( f_new - f.clone() ) / delta );
+     }
+   [d] is delta as an element (f64: delta; Cmplx: Cmplx::new(delta, 0.0)); returns the matrix and
+   the points at which func was called. *)
+Definition jac_body (f : list A -> res (list A)) (f0 : list A) (d : A) (i : nat)
+    (s : list A * matrix A * list (list A)) : res (list A * matrix A * list (list A)) :=
+  let '(state, jac, evs) := s in
+  let* xi := rd state i in
+  let* state1 := upd state i (add xi d) in
+  let* fnew := f state1 in
+  let* xi1 := rd state1 i in
+  let* state2 := upd state1 i (sub xi1 d) in
+  let* diff := vsub fnew f0 in
+  let* col := vdiv diff d in
+  let* jac' := set_col jac i col in
+  Ok (state2, jac', evs ++ [state1]).
+
+Definition jacobian_tr (f : list A -> res (list A)) (point : list A) (d : A)
+    : res (list A * matrix A * list (list A)) :=
+  let n := length point in
+  let* f0 := f point in
+  let m := length f0 in
+  for_ 0 n (jac_body f f0 d) (point, mat_new m n zero, [point]).
+
+(* what the Rust function returns (the matrix) + the call points *)
+Definition jacobian (f : list A -> res (list A)) (point : list A) (d : A)
+    : res (matrix A * list (list A)) :=
+  let* r := jacobian_tr f point d in Ok (snd (fst r), snd r).
+
+(* ---- Newton<Vec64>::solve / Newton<Vector<Cmplx>>::solve  (newton.rs:95-112, 135-150) ----
+     let f = func( current.clone() );
+     let max_residual = f.norm_inf();
+     let mut j = Matrix::jacobian( current.clone(), func, self.delta );
+     let dx = j.solve_basic( &f );
+     current -= dx;
+     if max_residual <= self.tol { return Ok( current ) }                                     *)
+Definition sys_step (tl dl : R) (f : list A -> res (list A)) (cur : list A)
+    : res (list A * bool * list (list A)) :=
+  let* fv := f cur in
+  let* maxres := norm_inf fv in
+  let* jr := jacobian f cur (emb O dl) in
+  let* dx := solve_basic (fst jr) fv in
+  let* cur' := vsub_assign cur dx in
+  Ok (cur', leb maxres tl, cur :: snd jr).
+
+Definition newton_sys (c : ncfg R (list A)) (f : list A -> res (list A))
+    : res (nres (list A) * list (list A)) :=
+  nloop (sys_step (tol c) (delta c) f) (max_iter c) (guess c) [].
+
+(* ---- solve_jacobian (newton.rs:115-131, 153-169): as above with  let mut j = jac( current.clone() ); *)
+Definition sysjac_step (tl : R) (f : list A -> res (list A)) (jac : list A -> res (matrix A))
+    (cur : list A) : res (list A * bool * list (call (list A))) :=
+  let* fv := f cur in
+  let* maxres := norm_inf fv in
+  let* j := jac cur in
+  let* dx := solve_basic j fv in
+  let* cur' := vsub_assign cur dx in
+  Ok (cur', leb maxres tl, [CF cur; CJ cur]).
+
+Definition newton_sysjac (c : ncfg R (list A)) (f : list A -> res (list A))
+    (jac : list A -> res (matrix A)) : res (nres (list A) * list (call (list A))) :=
+  nloop (sysjac_step (tol c) f jac) (max_iter c) (guess c) [].
+
+End Newton.
+
+Arguments nloop {X E} step n cur evs.
+Arguments niter {X E} step k cur.
